@@ -48,6 +48,11 @@ EmitBad ==
                             x0 |-> x0, draws |-> draws, calls |-> calls, ret |-> ret, winsrc |-> WinSrc, rnd |-> RandInWindow,
                             changedby |-> {i \in 1..n : ~Fixes(i, ret)}])>>)
 
+(* multi-digit iteration caps (MC_Comb_long.cfg: maxiter 10 and 12, up to 36 member calls): `draws` is a ghost that
+   only records history, so runs that differ in it alone are identified (VIEW) -- the claims, OnePath and Bounded do
+   not mention it *)
+NoDraws == <<kind, cs, maxiter, rule, x0, pc, calls, x, src, same, exit, ret>>
+
 (* vacuity companions: TLC must VIOLATE these (the antecedents are reachable) *)
 NeverOnExit == ~(Done /\ exit = "onexit")
 NeverOnFail == ~(Done /\ exit = "onfail")
